@@ -160,6 +160,8 @@ func (ot OctTree) ClosestPoint(v vector3.Float64) (int, vector3.Float64) {
 				})
 			}
 			for _, element := range item.cell.elements {
+				// copy per iteration: the queue keeps a pointer to the element
+				element := element
 				point := element.primitive.ClosestPoint(v)
 
 				heap.Push(&pq, octDistItem{
